@@ -1,0 +1,78 @@
+//go:build verif
+
+// Contracts for govc (see /verif/DESIGN.md). Comment-only; compiled only with -tags verif.
+
+package tcplistener
+
+//@ property C07 C08
+
+// ---- representation invariant of the reader: offsets in range, room for another record, offsetSearch is the start of the
+// last (unterminated) line: it follows a newline (or is 0) and no newline lies between it and offsetAppend
+//@ pure func mlrshape(m *multiLineReader) bool := m != nil && m.readInput != nil && m.testRecordStart != nil && m.consumeRecord != nil
+//@      && m.softRecordLimit > 0 && len(m.buffer) >= 3 * m.softRecordLimit && m.softRecordLimit <= 1073741824
+//@      && 0 <= m.offsetSearch && m.offsetSearch <= m.offsetAppend && m.offsetAppend <= len(m.buffer)
+//@ pure func mlrlines(m *multiLineReader) bool := (m.offsetSearch == 0 || m.buffer[m.offsetSearch-1] == 10)
+//@      && forall p int :: off(m.buffer) + m.offsetSearch <= p && p < off(m.buffer) + m.offsetAppend ==> at(m.buffer, p) != 10
+//@ pure func mlrok(m *multiLineReader) bool := mlrshape(m) && mlrlines(m) && len(m.buffer) - m.offsetAppend >= m.softRecordLimit
+
+// ---- the callbacks. Ghost: cbuf = the reader's buffer, mlrnext = index in it of the first byte not yet handed to the
+// consumer, mlrgap = bytes skipped between consumed records. In processBuffer the
+// loop invariant mlrnext == recordStart && mlrgap == 0 says every record starts exactly where the previous one (plus its
+// newline) ended: in order, no gap, no overlap.
+//@ ghost var cbuf []byte
+//@ ghost var mlrnext int
+//@ ghost var mlrgap int
+//@ fieldspec multiLineReader.readInput(p []byte) (n int, err error)
+//@   modifies p[:]
+//@   ensures 0 <= result.0 && result.0 <= len(p)
+//@ fieldspec multiLineReader.testRecordStart(s []byte) bool
+//@   modifies nothing
+//@ fieldspec multiLineReader.consumeRecord(s []byte)
+//@   requires[record-is-a-slice-of-the-buffer] ref(s) == ref(cbuf) && off(s) >= off(cbuf) && off(s) + len(s) <= off(cbuf) + len(cbuf)
+//@   modifies mlrnext, mlrgap
+//@   ghostset mlrgap := mlrgap + (off(s) - off(cbuf) - mlrnext)
+//@   ghostset mlrnext := off(s) - off(cbuf) + len(s) + 1
+
+// ---- processBuffer: consumes every record whose successor's first line is complete; what stays buffered is exactly the
+// rest, moved to the front: no byte is lost, duplicated or reordered (the one newline after each record aside)
+//@ func (mlr *multiLineReader) processBuffer(bufferEnd int)
+//@   requires mlrshape(mlr) && mlrlines(mlr) && mlr.offsetAppend < bufferEnd && bufferEnd <= len(mlr.buffer)
+//@   define   cbuf === mlr.buffer && mlrnext == 0 && mlrgap == 0
+//@   modifies mlr.offsetAppend, mlr.offsetSearch, mlr.buffer[:], mlrnext, mlrgap
+//@   ensures[shape-kept] mlrshape(mlr) && len(mlr.buffer) - mlr.offsetAppend >= mlr.softRecordLimit
+//@   ensures[lines-kept] mlrlines(mlr)
+//@   ensures[nothing-lost-unless-overflow] mlr.offsetAppend != 0 ==> mlrgap == 0 && mlr.offsetAppend == bufferEnd - mlrnext
+//@   ensures[rest-moved-to-front] mlr.offsetAppend != 0 ==> forall k int :: 0 <= k && k < mlr.offsetAppend ==> mlr.buffer[k] == old(mlr.buffer[now(mlrnext) + k])
+//@   loop 1: invariant 0 <= recordStart && recordStart <= searchStart && searchStart <= bufferEnd && (searchStart == 0 || buffer[searchStart-1] == 10) && (recordStart == 0 || buffer[recordStart-1] == 10) && (searchStart > 0 ==> recordStart < searchStart)
+//@   loop 1: invariant mlrnext == recordStart && mlrgap == 0 && buffer === old(mlr.buffer)[:bufferEnd] && old(mlr.offsetSearch) <= searchStart
+//@   loop 1: decreases bufferEnd - searchStart
+
+//@ func (mlr *multiLineReader) checkOverflow()
+//@   requires mlrshape(mlr) && mlrlines(mlr)
+//@   define   cbuf === mlr.buffer
+//@   modifies mlr.offsetAppend, mlr.offsetSearch, mlrnext, mlrgap
+//@   ensures[shape-kept] mlrshape(mlr) && len(mlr.buffer) - mlr.offsetAppend >= mlr.softRecordLimit
+//@   ensures[lines-kept] mlrlines(mlr)
+//@   ensures[untouched-when-there-is-room] old(len(mlr.buffer) - mlr.offsetAppend >= mlr.softRecordLimit) ==> mlr.offsetAppend == old(mlr.offsetAppend) && mlr.offsetSearch == old(mlr.offsetSearch) && mlrnext == old(mlrnext) && mlrgap == old(mlrgap)
+//@   ensures[reset-otherwise] !old(len(mlr.buffer) - mlr.offsetAppend >= mlr.softRecordLimit) ==> mlr.offsetAppend == 0 && mlr.offsetSearch == 0
+
+//@ func (mlr *multiLineReader) Read() error
+//@   requires mlrok(mlr)
+//@   define   cbuf === mlr.buffer && mlrnext == 0 && mlrgap == 0
+//@   modifies mlr.offsetAppend, mlr.offsetSearch, mlr.buffer[:], mlrnext, mlrgap
+//@   ensures[shape-kept] mlrshape(mlr) && len(mlr.buffer) - mlr.offsetAppend >= mlr.softRecordLimit
+//@   ensures[lines-kept] mlrlines(mlr)
+
+//@ func (mlr *multiLineReader) Flush()
+//@   requires mlrok(mlr)
+//@   define   cbuf === mlr.buffer && mlrnext == 0 && mlrgap == 0
+//@   modifies mlr.offsetAppend, mlr.offsetSearch, mlr.buffer[:], mlrnext, mlrgap
+//@   ensures[shape-kept] mlrshape(mlr) && len(mlr.buffer) - mlr.offsetAppend >= mlr.softRecordLimit
+//@   ensures[lines-kept] mlrlines(mlr)
+//@   ensures[partial-last-line-kept] forall k int :: 0 <= k && k < mlr.offsetAppend ==> mlr.buffer[k] == old(mlr.buffer[mlr.offsetAppend - now(mlr.offsetAppend) + k])
+
+//@ func (mlr *multiLineReader) FlushAll()
+//@   requires mlrok(mlr)
+//@   define   cbuf === mlr.buffer && mlrnext == 0 && mlrgap == 0
+//@   modifies mlr.offsetAppend, mlr.offsetSearch, mlrnext, mlrgap
+//@   ensures[invariant-kept] mlrok(mlr) && mlr.offsetAppend == 0
